@@ -26,6 +26,15 @@ def cancel(c):
     return {"op": "cancel", "caller": c, "image": ""}
 
 
+# references that match the manager's registry host override (quay.io) but cannot be rewritten
+BAD_REFS = ["quay.io/Seed/C20C:v1", "quay.io/", "quay.io/a b:v1", "quay.io/x@sha256:zz", "quay.io/x:"]
+
+
+def badreq(c, ref):
+    """Caller c calls Pull with a reference on which the registry host override fails."""
+    return {"op": "badreq", "caller": c, "image": "", "ref": ref}
+
+
 def well_formed(steps):
     """Done only while a pull of the image is running; a caller blocked in Pull cannot call again."""
     waiting, blocked = {}, set()
@@ -33,6 +42,10 @@ def well_formed(steps):
     for s in steps:
         flat += [done(s["image"], s["result"]), req(s["caller"], s["image"])] if s["op"] == "overlap" else [s]
     for s in flat:
+        if s["op"] == "badreq":
+            if s["caller"] in blocked:
+                return False
+            continue    # returns at once
         if s["op"] == "cancel":
             continue    # no effect on the current code: the caller stays blocked in Pull
         if s["op"] == "req":
@@ -72,14 +85,28 @@ CORPUS = [
     [req(0, "a"), req(1, "a"), cancel(0), done("a"), req(2, "a"), done("a", "err")],
     [req(0, "a"), req(1, "a"), req(2, "b"), cancel(1), cancel(2), done("b", "err"), req(2, "a"), done("a"), req(1, "b")],
     [req(0, "a"), req(1, "a"), cancel(0), overlap(2, "a"), cancel(2), cancel(3), done("a")],
+    # Pull calls on which the registry host override fails: answered at once with the error, no pull
+    [badreq(0, BAD_REFS[0])],
+    [req(0, "a"), badreq(1, BAD_REFS[0]), badreq(1, BAD_REFS[1]), req(1, "a"), badreq(2, BAD_REFS[2]), done("a"),
+     badreq(0, BAD_REFS[3]), badreq(0, BAD_REFS[4])],
 ]
+
+
+def badreq_variants(schedules):
+    """Every schedule with one failing-override Pull (by a caller used nowhere else) inserted at every position."""
+    out, n = [], 0
+    for seq in schedules:
+        for k in range(0, len(seq) + 1):
+            out.append(seq[:k] + [badreq(7, BAD_REFS[n % len(BAD_REFS)])] + seq[k:])
+            n += 1
+    return out
 
 
 def blocked_after(seq):
     """Callers blocked in Pull after seq (on the current code a cancelled caller stays blocked)."""
     waiting, blocked = {}, []
     for s in seq:
-        if s["op"] == "cancel":
+        if s["op"] in ("cancel", "badreq"):
             continue
         if s["op"] in ("done", "overlap"):
             for c in waiting.get(s["image"], []):
@@ -203,6 +230,8 @@ def step_term(s):
         return "Plain (Req %d %d)" % (s["caller"], img_no(s["image"]))
     if s["op"] == "cancel":
         return "Plain (Cancel %d)" % s["caller"]
+    if s["op"] == "badreq":
+        return "Plain (Fail %d)" % s["caller"]
     if s["op"] == "overlap":
         return "Overlap %d %s %d" % (img_no(s["image"]), cB(s.get("result") != "err"), s["caller"])
     return "Plain (Done %d %s)" % (img_no(s["image"]), cB(s.get("result") != "err"))
@@ -210,7 +239,9 @@ def step_term(s):
 
 def malformed_events(obs):
     return [e for evs in obs["events"] for e in evs
-            if e.get("res") != "cancelled" and (e["pull"] < 0 or (e["k"] == "resp" and e["res"] not in ("ok", "err")))]
+            if (e["k"] == "early" and e["res"] != "err") or
+            (e["k"] != "early" and e.get("res") != "cancelled" and
+             (e["pull"] < 0 or (e["k"] == "resp" and e["res"] not in ("ok", "err"))))]
 
 
 def term(sc, obs):
@@ -221,6 +252,8 @@ def term(sc, obs):
         for e in step_evs:
             if e["k"] == "pull":
                 l.append("IPull %d %d" % (img_no(e["image"]), e["pull"]))
+            elif e["k"] == "early":
+                l.append("IRej %d" % e["caller"])
             elif e["res"] == "cancelled":
                 l.append("IGone %d %d" % (e["caller"], img_no(e["image"])))
             else:
@@ -228,7 +261,7 @@ def term(sc, obs):
         evs.append(cL(l))
     order = []
     for s in steps:
-        if s["op"] != "cancel" and s["image"] not in order:
+        if s["op"] not in ("cancel", "badreq") and s["image"] not in order:
             order.append(s["image"])
     pend = {p["image"]: p["callers"] for p in obs["pending"]}
     pend_t = cL([cP(cN(img_no(i)), cL([cN(c) for c in pend.get(i, [])])) for i in order])
@@ -240,8 +273,9 @@ def classify(sc, obs):
     """(class key, non-trivial?) - callers erased; non-trivial = some request joined a running pull
     or some image was pulled again after a broadcast."""
     steps = sc["steps"]
-    key = tuple((s["op"], s["image"], s.get("result", "")) for s in steps) + tuple(obs.get("overlap", []))
-    joined = any(n >= 2 for n in obs["counts"]) or any(s["op"] in ("overlap", "cancel") for s in steps)
+    key = tuple((s["op"], s["image"], s.get("result", ""), s.get("ref", "")) for s in steps) + \
+        tuple(obs.get("overlap", [])) + (bool(sc.get("override")),)
+    joined = any(n >= 2 for n in obs["counts"]) or any(s["op"] in ("overlap", "cancel", "badreq") for s in steps) or bool(sc.get("override"))
     pulls = {}
     for evs in obs["events"]:
         for e in evs:
@@ -290,7 +324,7 @@ def evaluate(run, scs, outs, tag, samples):
             continue
         bad = malformed_events(o["obs"])
         if bad:
-            run.violation("C20 a caller got neither the package nor the error of a pull",
+            run.violation("C20 a Pull call did not return exactly one of (package, nil) / (nil, error)",
                           {"scenario": sc, "impl": o["obs"]}, True)
             concrete += 1
             continue
@@ -392,6 +426,10 @@ def check(run, tier, seed, replay=None):
         "context cancellation: on the current code Pull ignores its context while waiting, so a cancel step is a no-op "
         "in the model and the cancelled caller stays blocked; the monitor also accepts an early return of the cancelled "
         "caller (exempt from exactly-once) but nobody else's; the scripted pull function ignores the context",
+        "Pull = imagePrefix/registry-host override step, then the request machine on the rewritten image: every manager "
+        "is built with the host override quay.io -> localhost:123; 'override' scenarios request each image x as "
+        "quay.io/pko/x:v1 (rewritten), badreq steps use references on which the override fails; every Pull call is "
+        "classified as (package,nil) / (nil,err) / neither / both; image prefix overrides are not exercised",
         "handleResponse(img) is only called by the goroutine started by handleRequest(img) (schedules are well-formed); "
         "the scripted pull function does not panic",
         "linearisation: a step is over when the accessor (under inFlightLock) shows the registration / deletion and every "
@@ -418,7 +456,9 @@ def check(run, tier, seed, replay=None):
         "the broadcast is stalled), plus random schedules with a third of the Dones overlapped; cancel variants: every "
         "exhaustive schedule up to length %d with one context cancellation inserted at every position for every caller "
         "blocked there, plus random schedules with cancels and overlaps%s. A per-schedule watchdog reports a schedule after "
-        "which nothing can move (blocked broadcast) with the schedule as replay. Stops after the first "
+        "which nothing can move (blocked broadcast) with the schedule as replay; override stage: corpus and exhaustive "
+        "schedules re-run with every image requested through a reference the registry host override rewrites, and a "
+        "Pull on a reference the override rejects inserted at every position. Stops after the first "
         "stage with a concrete violation. non-trivial = a request joined a running pull, an image was pulled again after a "
         "broadcast, or a step overlapped; distinct = (op, image, result) sequence with caller ids erased + what the "
         "overlapping Pull was seen doing"
@@ -448,6 +488,16 @@ def check(run, tier, seed, replay=None):
                                                                     20 if tier == "quick" else 60), 0.2), 0.2)
     assert all(well_formed(s) for s in cv[:2000])
     stages.append(("cancel", [{"steps": s} for s in cv]))
+    # the path before the request machine: managers always have a registry host override (quay.io -> localhost:123);
+    # "override" scenarios request every image through a reference the override rewrites, badreq steps use
+    # references on which it fails
+    small = exhaustive(3 if tier == "quick" else 4)
+    bv = badreq_variants(small)
+    osc = [{"steps": s, "override": True} for s in CORPUS + exhaustive(4 if tier == "quick" else 5)]
+    osc += [{"steps": s, "override": i % 2 == 0} for i, s in enumerate(bv)]
+    osc += [{"steps": s, "override": True} for s in badreq_variants(
+        sprinkle_cancels(r, sprinkle_overlaps(r, random_schedules(r, 40 if tier == "quick" else 400, 20 if tier == "quick" else 60), 0.2), 0.1))[:400 if tier == "quick" else 6000]]
+    stages.append(("override", osc))
     for tag, scs in stages:
         outs = vlib.run_harness("reqmgr", scs, par=8)
         if evaluate(run, scs, outs, tag, samples):
